@@ -20,10 +20,10 @@ ASSUMPTIONS = ['simulated transport and OS layer (DESIGN.md 2.1) are faithful',
                'asked to stop', 'end-of-run clauses only on quiescent, agreed groups']
 FLOORS = {'quick': {'conciliation_rounds': 150, 'round_conflicts_evaluated': 150, 'stops_in_conciliation': 150,
                     'rounds_with_simultaneous_conflicts': 20, 'detection_samples': 3000,
-                    'final_groups_evaluated': 200},
+                    'final_groups_evaluated': 200, 'pairs_of_copies_started_together': 50},
           'thorough': {'conciliation_rounds': 3000, 'round_conflicts_evaluated': 3000, 'stops_in_conciliation': 3000,
                        'rounds_with_simultaneous_conflicts': 400, 'detection_samples': 60000,
-                       'final_groups_evaluated': 4000}}
+                       'final_groups_evaluated': 4000, 'pairs_of_copies_started_together': 800}}
 COUNT = {'quick': 480, 'thorough': 9000}
 BUDGET_S = {'quick': 55, 'thorough': 540}
 
@@ -32,7 +32,7 @@ KNOBS = {'n_min': 2, 'n_max': 4,
                   'autorestart': ('false',)},
          'behaviours': ['normal'] * 6 + ['slow_stop'],
          'actions': ['dup', 'dup', 'multi_dup', 'multi_dup', 'multi_dup', 'partition', 'wait', 'dup_unmanaged',
-                     'dup_unmanaged'],
+                     'dup_unmanaged', 'dup_pair', 'dup_pair'],
          'n_actions': [1, 1, 2, 3, 4], 'fence': 'false', 'early_p': 0.1}
 
 
